@@ -110,6 +110,10 @@ PY_Diamond == (0 :> <<>>) @@ (1 :> <<0>>) @@ (2 :> <<1>>) @@ (3 :> <<1>>) @@
 \* mixin: 1 Base, 2 Mid(Base), 3 Mix, 4 Leaf(Mid, Mix)
 PY_Mixin == (0 :> <<>>) @@ (1 :> <<0>>) @@ (2 :> <<1>>) @@ (3 :> <<0>>) @@
             (4 :> <<2, 3>>)
+\* triangle: 1 A, 2 B(A), 3 D(B, A)  (a direct base that is also reachable
+\* through another direct base)
+PY_Tri == (0 :> <<>>) @@ (1 :> <<0>>) @@ (2 :> <<1>>) @@ (3 :> <<2, 1>>)
+CO_Tri == <<3, 3, 2>>
 \* small: 1 Base, 2 K(Base)
 PY_Two == (0 :> <<>>) @@ (1 :> <<0>>) @@ (2 :> <<1>>)
 CO_Chain == <<3, 3, 4>>      \* o1, o2 : Leaf ; o3 : Sib
